@@ -12,7 +12,8 @@ R5 persistence: a fully masked tile unlinks exactly the path it would have been 
 """
 import ast
 
-from sa import sym
+from sa import sym, boolalg
+from sa.teval import teval, UNKNOWN
 from sa.sym import show, num, num_value, atoms_of
 from sa.model import dotted, own_calls, own_nodes, callee_attr
 
@@ -292,37 +293,79 @@ def _r3_locality(run):
             run.holds("C15.R3", f, None, "%s writes the buffer only through buffer[by_idx, bx_idx]%s" % (name, " after pre-filling it with the sentinel" if name.startswith("fill") else ""))
 
 
-def _table_of(project, q, subst):
+def _mode_table(project, q, role_of):
+    """The mode a dtype->mode function returns for every (ndim, channels, kind, itemsize) of a finite grid; 'RAISE' where it
+    returns nothing.  *role_of*: maps an atom term of the function to 'NDIM' / 'SHAPE2' / 'KIND' / 'ITEMSIZE' (or None)."""
+    import itertools
     f = project.fn(q)
     ev = sym.make_evaluator(project, IMG, [])
     r = ev.run(f.node)
-    rows = set()
+    atoms = set()
     for pc, t, n in r.returns:
-        conds = tuple(sorted((_norm(show(c), subst), p) for c, p in pc if c[0] != "loop"))
-        rows.add((conds, show(t).replace("cls.", "ImageMode.")))
-    return f, rows
+        for c in pc:
+            if c[0] != "loop":
+                atoms |= atoms_of(c[0])
+    roles = {}
+    for a in atoms:
+        ro = role_of(a)
+        if ro:
+            roles[a] = ro
 
-
-def _norm(s, subst):
-    for a, b in subst:
-        s = s.replace(a, b)
-    return s
+    def hook(t, rec):
+        if t[0] == "attr" and t[1] in (("sym", "ImageMode"), ("sym", "cls")):
+            return "MODE:" + t[2]
+        return NotImplemented
+    table = {}
+    for ndim, ch, kind, size in itertools.product((2, 3), (1, 3, 4), ("f", "u", "i"), (1, 2, 4, 8)):
+        vals = {"NDIM": ndim, "SHAPE2": ch, "KIND": kind, "ITEMSIZE": size}
+        envt = {a: vals[ro] for a, ro in roles.items()}
+        out = "RAISE"
+        for pc, t, n in r.returns:
+            c = teval(boolalg.conj(pc), envt, [hook])
+            if c is UNKNOWN:
+                out = "UNKNOWN"
+                break
+            if c:
+                out = teval(t, envt, [hook])
+                break
+        table[(ndim, ch, kind, size)] = out
+    return f, table
 
 
 def _r4_dtype_tables(run):
     project = run.project
-    f1, t1 = _table_of(project, IMG + "._array_to_mode", [("array.dtype.itemsize", "ITEMSIZE"), ("array.itemsize", "ITEMSIZE"), ("array.dtype.kind", "KIND"), ("array.ndim", "NDIM"), ("array.shape[(2)]", "SHAPE2")])
-    f2, t2 = _table_of(project, IMG + ".ImageMode.from_array_info", [("np.dtype(dtype).itemsize", "ITEMSIZE"), ("np.dtype(dtype).kind", "KIND"), ("len(shape)", "NDIM"), ("shape[(2)]", "SHAPE2")])
+
+    def role_array(a):
+        s_ = show(a)
+        return {"array.ndim": "NDIM", "array.shape#2": "SHAPE2", "array.dtype.kind": "KIND", "array.dtype.itemsize": "ITEMSIZE", "array.itemsize": "ITEMSIZE",
+                "len(array.shape)": "NDIM"}.get(s_)
+
+    def role_info(a):
+        s_ = show(a)
+        if s_ in ("len(shape)",):
+            return "NDIM"
+        if s_ == "shape#2":
+            return "SHAPE2"
+        if s_.endswith(".kind") and "dtype" in s_:
+            return "KIND"
+        if s_.endswith(".itemsize") and "dtype" in s_:
+            return "ITEMSIZE"
+        return None
+    f1, t1 = _mode_table(project, IMG + "._array_to_mode", role_array)
+    f2, t2 = _mode_table(project, IMG + ".ImageMode.from_array_info", role_info)
     run.note_func(f1, f2)
-    m1 = {t for c, t in t1}
-    m2 = {t for c, t in t2}
-    if t1 == t2:
-        run.holds("C15.R4", f1, None, "_array_to_mode and ImageMode.from_array_info map (ndim, channels, kind, itemsize) to modes identically", rows=len(t1))
+    unknown = [k for k in t1 if t1[k] is UNKNOWN or t2[k] is UNKNOWN or t1[k] == "UNKNOWN" or t2[k] == "UNKNOWN"]
+    diff = [k for k in t1 if k not in unknown and t1[k] != t2[k]]
+    n_modes = len({v for v in t1.values() if isinstance(v, str) and v.startswith("MODE:")})
+    if diff:
+        k = diff[0]
+        run.violated("C15.R4", f1, None, "the two dtype->mode tables disagree (e.g. ndim=%s, channels=%s, kind=%r, itemsize=%s: _array_to_mode gives %s, from_array_info gives %s; %d of %d "
+                     "cases differ): descriptions and loaded images of one file get different modes" % (k[0], k[1], k[2], k[3], t1[k], t2[k], len(diff), len(t1)), kind="dtype-tables")
+    elif unknown or n_modes < 8:
+        run.undecided("C15.R4", f1, None, "dtype->mode tables cannot be evaluated on the whole grid (%d unknown cases, %d modes reached)" % (len(unknown), n_modes), kind="dtype-tables-shape")
     else:
-        only1 = sorted(t for c, t in t1 - t2)
-        only2 = sorted(t for c, t in t2 - t1)
-        run.violated("C15.R4", f1, None, "the two dtype->mode tables disagree (rows only in _array_to_mode: %s; only in from_array_info: %s): descriptions and "
-                     "loaded images of one file get different modes" % (only1[:3], only2[:3]), kind="dtype-tables")
+        run.holds("C15.R4", f1, None, "_array_to_mode and ImageMode.from_array_info map (ndim, channels, kind, itemsize) to modes identically on all %d grid cases (%d modes)" % (len(t1), n_modes),
+                  rows=len(t1))
 
 
 def _r5_persistence(run):
@@ -359,7 +402,9 @@ def _r5_persistence(run):
         if pu != ps_:
             run.violated("C15.R5", f, unl[0].node, "an all-undefined tile unlinks %s, but a defined tile would be saved to %s: with an explicit non-default format the "
                          "stale file in that format survives (and a sibling default-format file is deleted instead)" % (show(pu)[:90], show(ps_)[:90]), kind="unlink-other-path")
-        elif (masked, True) not in unl[0].pc or (masked, False) not in sav[0].pc:
+        elif boolalg.implies(boolalg.conj([c for c in unl[0].pc if c[0] != "loop" and masked in atoms_of(c[0])]), masked) is not True \
+                or boolalg.implies(boolalg.conj([c for c in sav[0].pc if c[0] != "loop" and masked in atoms_of(c[0])]), ("op", "not", (masked,))) is not True \
+                or not [c for c in unl[0].pc if c[0] != "loop" and masked in atoms_of(c[0])] or not [c for c in sav[0].pc if c[0] != "loop" and masked in atoms_of(c[0])]:
             run.violated("C15.R5", f, unl[0].node, "unlink / save are not the two arms of image.is_completely_masked()", kind="masked-branch")
         else:
             run.holds("C15.R5", f, unl[0].node, "all-undefined image: the very path it would be saved to is unlinked; otherwise saved there")
@@ -391,7 +436,14 @@ def _r5_persistence(run):
             problems.append(("read-masked-uncleared", "the buffer returned for a missing tile is never cleared: it holds uninitialised memory, not undefined pixels"))
     # only errno 2
     reraise = [e for e in rg.events if e.kind == "raise" and any("errno" in show(c[0]) for c in e.pc if c[0] != "loop")]
-    errno_ok = any(c[0] == sym.cmp("NotEq", ("attr", ("sym", "e"), "errno"), num(2)) and c[1] for e in reraise for c in e.pc if c[0] != "loop")
+    errno_ok = False
+    for e in reraise:
+        # everything tested inside the handler before the bare re-raise
+        idx = [i for i, c in enumerate(e.pc) if c[0] != "loop" and c[0][0] == "op" and c[0][1] == "except"]
+        rel = [c for c in e.pc[(idx[-1] + 1 if idx else 0):] if c[0] != "loop"]
+        en = [a for c in rel for a in atoms_of(c[0]) if a[0] == "attr" and a[2] == "errno"]
+        if en and boolalg.equiv(boolalg.conj(rel), sym.cmp("NotEq", en[0], num(2))) is True:
+            errno_ok = True
     if not errno_ok:
         problems.append(("read-errno", "I/O errors other than 'no such file' (errno 2) are no longer re-raised: a corrupt or unreadable tile reads as missing"))
     if problems:
